@@ -40,6 +40,9 @@ seq_prop("C12", ["single", "fresh", "multi"], ["single", "fresh", "ext", "multi"
 seq_prop("C17", ["single", "ext"], ["single", "ext"],
          "programs with 35-45% read operations on existing and on missing resources; after every read the resource is re-read independently and must be byte-for-byte what it was (content and existence)")
 PROPS["C12"]["suites"] = list(PROPS["C12"]["suites"]) + [dict(unit="unit_c08_unserialisable", special="awkward")]
+# C17 also inside buffered contexts: a buffered copy that was only read is never written, whatever
+# outside writers do meanwhile (the conflict scenarios of C07, judged for their read-only files)
+PROPS["C17"]["suites"] = list(PROPS["C17"]["suites"]) + [dict(unit="unit_c07_scenarios", special="c07")]
 PROPS["C11"]["suites"] = list(PROPS["C11"]["suites"]) + [dict(unit="unit_c11_foreign", special="c11f")]
 
 
@@ -431,7 +434,8 @@ def replay(prop, path):
     ns = env.load()
     fams = [f for f in ns.families if f.short == payload.get("family")]
     fam = fams[0] if fams else ns.families[0]
-    ops = eval(payload["ops"], {"Other": Other, "MISSING": MISSING, "slice": slice}) if payload.get("ops") else None
+    from proto import Synced
+    ops = eval(payload["ops"], {"Other": Other, "MISSING": MISSING, "slice": slice, "Synced": Synced}) if payload.get("ops") else None
     if payload.get("kind") == "shadow":
         sh, _ = suites.run_shadow(ns, fam, ops, plain=bool((payload.get("extra") or {}).get("plain")))
         bad = [v for v in sh.violations if prop in v[0]]
@@ -527,6 +531,7 @@ def replay(prop, path):
         fam = ns.families[ex["fam_index"]]
         prog = eval(ex["prog"], {"Program": conc.Program, "MISSING": MISSING})
         prog.strategy = fam.buffered
+        prog._ctx = (ns, fam)
         serial = [conc.run_serial(ns, fam, prog, o) for o in conc.serial_orders(prog)]
         if payload["kind"] == "conc":
             run = conc.replay_conc(ns, fam, prog, [tuple(x) for x in ex["switches"]], ex["start"])
